@@ -95,7 +95,13 @@ func (f *Frame) exec(instr ssa.Instruction, g *Term) {
 		}
 		f.defers = append(f.defers, d)
 	case *ssa.Go:
-		// run to completion at the spawn point
+		// run to completion at the spawn point - unless the harness asked (vrt.DeferGo) to queue goroutines until
+		// vrt.RunSpawned: then the spawner first runs on (e.g. returns the channel the goroutine serves)
+		if e.deferGo {
+			in, g := in, g
+			e.spawned = append(e.spawned, func() { f.callCommon(&in.Call, g, in.Pos()) })
+			break
+		}
 		r := f.callCommon(&in.Call, g, in.Pos())
 		_ = r
 	case *ssa.Call:
@@ -677,13 +683,23 @@ func (e *Engine) sliceElems(s SliceV) ([]Value, bool) {
 	if s.len.val == 0 {
 		return nil, true
 	}
-	if len(s.arr.alts) != 1 {
+	if len(s.arr.alts) == 0 {
 		return nil, false
 	}
-	c := s.arr.alts[0].o.(*Cell)
 	out := make([]Value, s.len.val)
-	for i := range out {
-		out[i] = loadCell(c.elems[int(s.off.val)+i])
+	for k := len(s.arr.alts) - 1; k >= 0; k-- {
+		c, ok := s.arr.alts[k].o.(*Cell)
+		if !ok || c == nil || int(s.off.val)+len(out) > len(c.elems) {
+			return nil, false
+		}
+		for i := range out {
+			v := loadCell(c.elems[int(s.off.val)+i])
+			if out[i] == nil {
+				out[i] = v
+			} else {
+				out[i] = iteV(s.arr.alts[k].c, v, out[i])
+			}
+		}
 	}
 	return out, true
 }
